@@ -292,6 +292,25 @@ func run(c Case, o *h.Outcome, st *runStats) *h.Failure {
 // checkStore restores from db with a fresh PersistRestorer, by RestoreChannel
 // and by RestorePeer for every peer, and requires each view to show one of the
 // allowed references (nil = the channel is absent).
+// ownAccount finds the pool account of the restored channel's own participant
+// (nil for apps that are not state apps or when the address is not in the pool).
+func ownAccount(ch *persistence.Channel) wallet.Account {
+	if _, ok := ch.Params().App.(channel.StateApp); !ok {
+		return nil
+	}
+	idx := int(ch.Idx())
+	if idx >= len(ch.Params().Parts) {
+		return nil
+	}
+	addr := ch.Params().Parts[idx][0]
+	for i := 0; i < 16; i++ {
+		if gen.Acc(i).Address().Equal(addr) {
+			return gen.Acc(i)
+		}
+	}
+	return nil
+}
+
 func checkStore(db sortedkv.Database, allowed []*chanops.Snap, id channel.ID, peers []map[wallet.BackendID]wire.Address, where string) *h.Failure {
 	pr := keyvalue.NewPersistRestorer(db)
 	absentOK := false
@@ -322,6 +341,21 @@ func checkStore(db sortedkv.Database, allowed []*chanops.Snap, id channel.ID, pe
 			}
 			present = true
 			if field, detail = a.Diff(sn); field == "" {
+				// the machine a client rebuilds from what was restored
+				// (channel.RestoreStateMachine) is in that same state too
+				if own := ownAccount(ch); own != nil {
+					m, err := channel.RestoreStateMachine(map[wallet.BackendID]wallet.Account{0: own}, ch)
+					if err != nil {
+						return h.Failf("restore-machine-error", "%s: %s: channel.RestoreStateMachine on the restored channel fails: %v", where, view, err)
+					}
+					msn, err := chanops.SnapOf(m, ch.PeersV, ch.Parent)
+					if err != nil {
+						return h.Failf("restored-unencodable", "%s: %s: restored machine cannot be encoded: %v", where, view, err)
+					}
+					if f2, d2 := a.Diff(msn); f2 != "" {
+						return h.Failf("restored-machine-mismatch:"+f2, "%s: %s: the machine rebuilt with channel.RestoreStateMachine differs from the restored channel data it was built from: %s", where, view, d2)
+					}
+				}
 				return nil
 			}
 		}
